@@ -165,6 +165,76 @@ def _true_conditions(b, ex, bb, depth=0):
     return out
 
 
+def _proj_simplify(e):
+    """`(a, b).0` -> a (component of a literal tuple / struct), bottom-up."""
+    if not isinstance(e, tuple) or not e:
+        return e
+    e = tuple(_proj_simplify(x) if isinstance(x, tuple) else x for x in e)
+    if e[0] == "field" and len(e) == 3 and isinstance(e[1], tuple) and e[1]:
+        base = strip_refs(e[1])
+        if base[0] == "agg" and base[1] in ("tuple",) and str(e[2]).isdigit() and int(e[2]) < len(base[3]):
+            return base[3][int(e[2])]
+    return e
+
+
+def _table_takes(b, ex, ev, sp, text, rets, ref):
+    """Rights removed under move text `text` by a table-driven loop
+    (`for (square, right) in [("a8", BlackQueenSide), ..] { if player_move.contains(square) { take_away(right) } }`):
+    the loop lies on every path to a return, leaves only when the table is exhausted, and for each element the
+    guards that mention the element are evaluated with the element and the text substituted."""
+    from .hash import _table_item
+    from wa.loopseg import subst
+    from wa.interp import eval_expr, Unknown
+    out = set()
+    loops = b.loops()
+    for loc, e in ev.items():
+        if e[0] != "call" or e[1] != TAKE:
+            continue
+        ra = strip_refs(e[2][1])
+        ti = _table_item(b, ex, ra)
+        if ti is None:
+            continue
+        item, comp, elems = ti
+        inl = [h for h, body_ in loops.items() if loc[0] in body_]
+        if not inl:
+            continue
+        h = min(inl, key=lambda hh: len(loops[hh]))
+        # every path to a return runs the loop, and the loop is left only from its header's iteration test
+        if any(b.reaches(0, r, removed_nodes={h}, removed_edges=ref) for r in rets):
+            continue
+        exits = {(x, s_) for x in loops[h] for s_ in b.succ.get(x, []) if s_ not in loops[h]}
+        nxt_blocks = {x for x in loops[h] if b.term(x)["k"] == "switch" and ex.switch_discr(x)[0] == "discr"
+                      and strip_refs(ex.switch_discr(x)[1]) == strip_refs(item[1][1] if item[0] == "field" else item)}
+        if any(x not in nxt_blocks for x, _s in exits):
+            continue
+        conds = [d for d in _true_conditions(b, ex, loc[0]) if item in set(subexprs(d))]
+        other = [d for d in _true_conditions(b, ex, loc[0]) if item not in set(subexprs(d)) and any(b.edge_dominates((s2, t2), loc[0]) for s2 in loops[h] for t2 in b.succ.get(s2, []) if s2 != h and t2 in loops[h] and False)]
+        for el in elems:
+            el = strip_refs(el)
+            if not (el[0] == "agg" and el[1] == "tuple"):
+                continue
+            ok = True
+            for d in conds:
+                try:
+                    v = eval_expr(_proj_simplify(subst(d, {item: el})), {("arg", sp): text, ("deref", ("arg", sp)): text})
+                except (Unknown, TypeError, ValueError, IndexError, KeyError):
+                    ok = False
+                    break
+                if not v:
+                    ok = False
+                    break
+            # conditions inside the loop that do not mention the element would make the removal depend on
+            # something else: only the element guards may stand between the loop head and the call
+            for d, vals, excl, s2, t2 in dominating_facts(b, ex, loc[0]):
+                if s2 in loops[h] and s2 not in nxt_blocks and item not in set(subexprs(d)):
+                    ok = False
+            if ok:
+                r_e = strip_refs(el[3][int(comp)])
+                if r_e[0] == "agg":
+                    out.add(r_e[2])
+    return out
+
+
 def r4_3(ctx):
     """Corner squares <-> rights by finite instantiation of the string guards; castling strings and
     rook hops against the oracle."""
@@ -194,6 +264,9 @@ def r4_3(ctx):
                           strip_refs(e[2][1]) == ("agg", "move_generation::CastlingType", right, ())}
                     reach = any(b.reaches(0, r, removed_nodes=tk, removed_edges=ref) for r in rets)
                     n += 1
+                    if reach and right in _table_takes(b, ex, ev, sp, m, rets, ref):
+                        ndec = max(ndec, 4)
+                        continue
                     if reach:
                         ctx.ob("make_move:text(%s)->%s" % (m, right), False, b.where((sorted(tk)[0], 0)) if tk else b.file,
                                "the move text `%s` touches %s but can be applied without removing %s (string guards evaluated for this text)" % (m, corner, right))
